@@ -133,12 +133,8 @@ package internal
 //@   allocates
 //@   assigns ghost:sentCount, ghost:sentMethod, ghost:sentPath, ghost:sentBody
 //@   ensures X1: sentCount == old(sentCount) + 1 && sentMethod == method && sentPath == path && sentBody == v
-//@   ensures X2: err == nil ==> req != nil && fresh(req) && req.Header != nil
-//@ func internal.(*Client).DoMultiStatus(c, req) (ms, err)
-//@   trusted C14
-//@   requires R1: c != nil && req != nil
-//@   allocates
-//@   ensures D1: err == nil ==> ms != nil
+//@   ensures X2: err == nil ==> req != nil && fresh(req) && req.Header != nil && hget(hv, req.Header, "Depth") == ""
+//@ -- (DoMultiStatus: see the C14 contracts below)
 
 //@ -- per-resource outcome inside a multi-status (C10, C11)
 //@ spec errStatus(e error) int = isHTTP(e) ? httpCode(e) : 500
@@ -248,3 +244,144 @@ package internal
 //@   allocates
 //@   ensures V1: mutations == old(mutations) && epCalls == old(epCalls) && epCode == old(epCode) && epVal == old(epVal)
 //@   ensures V2: err == nil
+
+//@ -- ---------------------------------------------------------------------------------------
+//@ -- C14: statuses inside a multi-status. A response / property reported with a non-success status is an error
+//@ -- carrying that status, never data.
+//@ func internal.(*Status).Err(s) (err)
+//@   nilable s
+//@   allocates
+//@   ensures T1: err == nil <==> (s == nil || s.Code == 200)
+//@   ensures T2: err != nil ==> dynHTTP(err) && httpCode(err) == s.Code
+//@ spec respFailed(resp *Response) bool = resp.Status != nil && resp.Status.Code / 100 != 2
+//@ func internal.(*Response).Err(resp) (err)
+//@   requires R1: resp != nil
+//@   allocates
+//@   ensures R1a: err == nil <==> !respFailed(resp)
+//@   ensures R2: err != nil ==> dynHTTP(err) && httpCode(err) == resp.Status.Code
+//@   -- the DAV:error element of the response travels with the error
+//@   ensures R3: err != nil && resp.Error != nil ==> davErr(err)
+//@ func internal.(*Response).Path(resp) (p, err)
+//@   requires R1: resp != nil
+//@   allocates
+//@   ensures P1: err == nil <==> (!respFailed(resp) && len(resp.Hrefs) == 1)
+//@   ensures P2: len(resp.Hrefs) == 1 ==> p == resp.Hrefs[0].Path
+//@   ensures P3: respFailed(resp) ==> httpCode(err) == resp.Status.Code
+//@   ensures P4: len(resp.Hrefs) != 1 ==> p == ""
+//@ -- valueXMLName is reflection over the target's struct tag (T-xml): a function of the target value's type
+//@ func internal.valueXMLName(v) (name, err) as vxName, vxErr
+//@   trusted T-xml
+//@   pure
+//@ -- RawXMLValue.Decode replays the stored tokens into encoding/xml (T-xml): fills the target or fails, never panics
+//@ func internal.(*RawXMLValue).Decode(val, v) (err)
+//@   trusted T-xml
+//@   requires R1: val != nil
+//@   decodes v
+//@   ensures D1: err != nil ==> !isHTTP(err) && fromDecoder(err)
+//@ spec opaque hasProp(ps PropStat, name xml.Name) bool = exists i int :: 0 <= i && i < len(ps.Prop.Raw) && namedRaw(ps.Prop.Raw[i]) && rawName(ps.Prop.Raw[i]) == name
+//@ spec opaque hasPropP(p *Prop, name xml.Name) bool = exists i int :: 0 <= i && i < len(p.Raw) && namedRaw(p.Raw[i]) && rawName(p.Raw[i]) == name
+//@ func internal.(*Prop).Get(p, name) (raw)
+//@   reveal hasPropP
+//@   requires R1: p != nil
+//@   ensures G1a: raw != nil ==> (exists i int :: 0 <= i && i < len(p.Raw) && namedRaw(p.Raw[i]) && rawName(p.Raw[i]) == name)
+//@   witness G1a: i : #i1 - 1
+//@   ensures G1b: raw == nil ==> !hasPropP(p, name)
+//@   loop 1 invariant I1: forall j int :: 0 <= j && j < #i ==> !(namedRaw(p.Raw[j]) && rawName(p.Raw[j]) == name)
+//@ -- firstWith(resp, name, k): propstat k is the first one that lists the property
+//@ spec opaque firstWith(resp *Response, name xml.Name, k int) bool = 0 <= k && k < len(resp.PropStats) && hasProp(resp.PropStats[k], name) && (forall j int :: 0 <= j && j < k ==> !hasProp(resp.PropStats[j], name))
+//@ func internal.(*Response).DecodeProp(resp, values) (err)
+//@   reveal hasProp, hasPropP, firstWith
+//@   requires R1: resp != nil
+//@   allocates
+//@   decodes values
+//@   ensures E0: len(values) == 0 ==> err == nil
+//@   -- a failed response is surfaced as an error with its status, whatever it lists
+//@   ensures E1: len(values) > 0 && old(vxErr(values[0]) == nil && respFailed(resp)) ==> err != nil && httpCode(err) == old(resp.Status.Code)
+//@   -- success means: the response did not fail and the value came from a propstat with status 200, the first that lists the property
+//@   ensures E2: len(values) > 0 && err == nil ==> old(!respFailed(resp)) && (exists k int :: old(firstWith(resp, vxName(values[0]), k) && resp.PropStats[k].Status.Code == 200))
+//@   -- a property reported under a non-200 propstat is an error with that status, never data
+//@   ensures E3: len(values) > 0 ==> (forall k int :: old(vxErr(values[0]) == nil && !respFailed(resp) && firstWith(resp, vxName(values[0]), k) && resp.PropStats[k].Status.Code != 200) ==> err != nil && httpCode(err) == old(resp.PropStats[k].Status.Code))
+//@   -- a property no propstat lists is a 404
+//@   ensures E4: len(values) > 0 && old(vxErr(values[0]) == nil && !respFailed(resp) && (forall k int :: 0 <= k && k < len(resp.PropStats) ==> !hasProp(resp.PropStats[k], vxName(values[0])))) ==> httpCode(err) == 404
+//@   -- (the outer loop returns in its first iteration, so the only loop of the compiled function is the one over the propstats)
+//@   loop 1 invariant I1: name == old(vxName(values[0])) && old(vxErr(values[0])) == nil && old(!respFailed(resp)) && (forall j int :: 0 <= j && j < #i ==> old(!hasProp(resp.PropStats[j], vxName(values[0]))))
+//@   loop 1 invariant I2: len(resp.PropStats) == old(len(resp.PropStats)) && (forall j int :: 0 <= j && j < len(resp.PropStats) ==> resp.PropStats[j] == old(resp.PropStats[j]))
+
+//@ -- C14: HTTP status to error. A call fails exactly when the transport fails or the status is not 2xx; the error
+//@ -- then is an *HTTPError with that status which wraps the DAV:error element of an XML body.
+//@ spec clientOK(c *Client) bool = c != nil && c.http != nil && c.endpoint != nil
+//@ spec xmlResp(r *http.Response) bool = mimeType(hget(hv, r.Header, "Content-Type")) == "application/xml" || mimeType(hget(hv, r.Header, "Content-Type")) == "text/xml"
+//@ func internal.(*Client).Do(c, req) (resp, err)
+//@   requires R1: clientOK(c) && req != nil
+//@   allocates
+//@   assigns ghost:data, ghost:doCalls, ghost:lastReq
+//@   ensures D0: doCalls == old(doCalls) + 1 && lastReq == req
+//@   ensures D1: doErr(c.http, req) != nil ==> resp == nil && err == doErr(c.http, req)
+//@   ensures D2: doErr(c.http, req) == nil && doResp(c.http, req).StatusCode / 100 == 2 ==> resp == doResp(c.http, req) && err == nil
+//@   ensures D3: doErr(c.http, req) == nil && doResp(c.http, req).StatusCode / 100 != 2 ==> resp == nil && err != nil && dynHTTP(err) && httpCode(err) == doResp(c.http, req).StatusCode
+//@   ensures D4: doErr(c.http, req) == nil && doResp(c.http, req).StatusCode / 100 != 2 && old(hget(hv, doResp(c.http, req).Header, "Content-Type") != "" && xmlResp(doResp(c.http, req))) && decodedOk(xmlDecoderOf(doResp(c.http, req).Body), "internal.Error") ==> davErr(err)
+//@   ensures D5: err == nil ==> respOK(resp)
+
+//@ spec doStatus(c *Client, req *http.Request) int = doResp(c.http, req).StatusCode
+//@ func internal.(*Client).DoMultiStatus(c, req) (ms, err)
+//@   requires R1: clientOK(c) && req != nil
+//@   allocates
+//@   assigns ghost:data, ghost:doCalls, ghost:lastReq
+//@   ensures M0: doCalls == old(doCalls) + 1 && lastReq == req
+//@   ensures M1: doErr(c.http, req) != nil ==> ms == nil && err == doErr(c.http, req)
+//@   ensures M2: doErr(c.http, req) == nil && doStatus(c, req) / 100 != 2 ==> ms == nil && err != nil && dynHTTP(err) && httpCode(err) == doStatus(c, req)
+//@   -- a success other than 207 is not a multi-status: error
+//@   ensures M3: doErr(c.http, req) == nil && doStatus(c, req) / 100 == 2 && doStatus(c, req) != 207 ==> ms == nil && err != nil
+//@   -- 207: the decoded document, or the decoder's error when the body cannot be interpreted
+//@   ensures M4: doErr(c.http, req) == nil && doStatus(c, req) == 207 ==> (err == nil <==> decodedOk(xmlDecoderOf(doResp(c.http, req).Body), "internal.MultiStatus"))
+//@   ensures M5: err == nil ==> ms != nil && fresh(ms) && *ms == decoded(xmlDecoderOf(doResp(c.http, req).Body), "internal.MultiStatus")
+//@   ensures M6: err != nil ==> ms == nil
+
+//@ -- one round trip; the outcome is DoMultiStatus's for the request that was sent (lastReq)
+//@ spec lastErr(c *Client) error = doErr(c.http, lastReq)
+//@ spec lastStatus(c *Client) int = doResp(c.http, lastReq).StatusCode
+//@ spec msOutcome(c *Client, ms *MultiStatus, err error) bool = (lastErr(c) != nil ==> ms == nil && err == lastErr(c))
+//@   | && (lastErr(c) == nil && lastStatus(c) / 100 != 2 ==> ms == nil && err != nil && dynHTTP(err) && httpCode(err) == lastStatus(c))
+//@   | && (lastErr(c) == nil && lastStatus(c) / 100 == 2 && lastStatus(c) != 207 ==> ms == nil && err != nil)
+//@   | && (lastErr(c) == nil && lastStatus(c) == 207 ==> (err == nil <==> decodedOk(xmlDecoderOf(doResp(c.http, lastReq).Body), "internal.MultiStatus")))
+//@   | && (err == nil ==> ms != nil && *ms == decoded(xmlDecoderOf(doResp(c.http, lastReq).Body), "internal.MultiStatus"))
+//@ func internal.(*Client).PropFind(c, ctx, path, depth, propfind) (ms, err)
+//@   requires R1: clientOK(c) && (depth == DepthZero || depth == DepthOne || depth == DepthInfinity)
+//@   allocates
+//@   assigns ghost:data, ghost:doCalls, ghost:lastReq, ghost:sentCount, ghost:sentMethod, ghost:sentPath, ghost:sentBody, ghost:hv
+//@   ensures P1: doCalls == old(doCalls) || doCalls == old(doCalls) + 1
+//@   ensures P2: doCalls == old(doCalls) ==> ms == nil && err != nil
+//@   ensures P3: doCalls == old(doCalls) + 1 ==> msOutcome(c, ms, err) && sentMethod == "PROPFIND" && sentPath == path && dynPtr(sentBody, "*PropFind") == propfind
+//@   |   && hget(hv, lastReq.Header, "Depth") == (depth == DepthZero ? "0" : (depth == DepthOne ? "1" : "infinity"))
+//@ func internal.(*Client).PropFindFlat(c, ctx, path, propfind) (resp, err)
+//@   requires R1: clientOK(c)
+//@   allocates
+//@   assigns ghost:data, ghost:doCalls, ghost:lastReq, ghost:sentCount, ghost:sentMethod, ghost:sentPath, ghost:sentBody, ghost:hv
+//@   ensures F1: doCalls == old(doCalls) ==> resp == nil && err != nil
+//@   ensures F2: doCalls == old(doCalls) + 1 && (lastErr(c) != nil || lastStatus(c) != 207) ==> resp == nil && err != nil && (lastErr(c) == nil && lastStatus(c) / 100 != 2 ==> httpCode(err) == lastStatus(c))
+//@   ensures F3: err == nil ==> resp != nil && doCalls == old(doCalls) + 1 && lastErr(c) == nil && lastStatus(c) == 207
+//@   ensures F4: doCalls == old(doCalls) || doCalls == old(doCalls) + 1
+//@ func internal.(*Client).SyncCollection(c, ctx, path, syncToken, level, limit, prop) (ms, err)
+//@   requires R1: clientOK(c) && (level == DepthZero || level == DepthOne || level == DepthInfinity)
+//@   allocates
+//@   assigns ghost:data, ghost:doCalls, ghost:lastReq, ghost:sentCount, ghost:sentMethod, ghost:sentPath, ghost:sentBody, ghost:hv
+//@   ensures S1: doCalls == old(doCalls) || doCalls == old(doCalls) + 1
+//@   ensures S2: doCalls == old(doCalls) ==> ms == nil && err != nil
+//@   ensures S3: doCalls == old(doCalls) + 1 ==> msOutcome(c, ms, err) && sentMethod == "REPORT" && sentPath == path
+
+//@ -- C05: relative names are resolved against the endpoint path; the URL carries the endpoint's scheme, user and host
+//@ spec resolved(c *Client, p string) string = hasPrefix(p, "/") ? p : pjoin(c.endpoint.Path, p)
+//@ func internal.(*Client).ResolveHref(c, p) (u)
+//@   requires R1: c != nil && c.endpoint != nil
+//@   allocates
+//@   ensures H1: u != nil && fresh(u) && u.Path == resolved(c, p) && u.Scheme == c.endpoint.Scheme && u.Host == c.endpoint.Host && u.User == c.endpoint.User
+//@   ensures H2: u.Opaque == "" && u.RawPath == "" && u.RawQuery == "" && u.Fragment == "" && !u.ForceQuery
+//@ -- the request built for (method, path): its URL text parses back to the resolved path (T-url)
+//@ func internal.(*Client).NewRequest(c, method, path, body) (req, err)
+//@   requires R1: c != nil && c.endpoint != nil && hasPrefix(c.endpoint.Path, "/")
+//@   allocates
+//@   assigns ghost:nrCalls, ghost:nrMethod, ghost:nrURL, ghost:nrReq
+//@   ensures N1: nrCalls == old(nrCalls) + 1 && nrMethod == method && nrReq == req
+//@   ensures N2: !hasPrefix(resolved(c, path), "//") ==> urlParseOk(nrURL) && urlParsePath(nrURL) == resolved(c, path)
+//@   ensures N3: err == nil ==> req != nil && fresh(req) && req.Header != nil && req.Method == method && (forall k string :: hget(hv, req.Header, k) == "")
+//@   ensures N4: err != nil ==> req == nil && fromEnv(err)
